@@ -99,6 +99,11 @@ def closure_destination(fn, start):
                 return ('invoke-arg', via, p)
             if p.get('obj') is cur:
                 return ('method:' + (cn or '?'), via, p)
+            m_ = (p.get('callee') or '').split('::')[-1]
+            if m_ in ('emplace_back', 'push_back', 'emplace', 'insert', 'emplace_front', 'push_front') and is_node(p.get('obj')):
+                fld = q.field_name(q.strip_casts(p['obj']))
+                if fld:         # constructed in place inside a member container: stored there, like an assignment to a slot
+                    return ('slot:' + strip_targs(fld), via, p)
             idx = next((i for i, a in enumerate(args) if a is cur), -1)
             return ('pass:%s#%d' % (cn, idx), via, p)
         if k == 'bin' and p['op'] == '=' and p['rhs'] is cur:
